@@ -1,3 +1,3 @@
-CONSTANTS MaxParams = 4 MaxVars = 3 Pool = "large" MaxCalls = 8 Mutant = "none"
+CONSTANTS MaxParams = 4 MaxVars = 3 Pool = "large" MaxCalls = 8 OptFields = {"name", "other", "type"} MaxPages = 3 Mutant = "none"
 SPECIFICATION Spec
 INVARIANT Emit
